@@ -178,6 +178,11 @@ func (c *boolExprSimplifyChecker) combineChecks(cur *astutil.Cursor) bool {
 }
 
 func (c *boolExprSimplifyChecker) removeIncDec(cur *astutil.Cursor) bool {
+	if c.hasFloats {
+		// `x+1 > y` and `x >= y` differ for non-integral values.
+		return false
+	}
+
 	cmp := astcast.ToBinaryExpr(cur.Node())
 
 	matchOneWay := func(op token.Token, x, y *ast.BinaryExpr) bool {
